@@ -1,6 +1,6 @@
 (* C03 — a task resumes only when all it awaits is done; start order; exactly once per yield.
    Statements only; proofs in proofs/ProgProofs.v, proofs/MachineC02.v, proofs/MachineSteps.v, proofs/MachineC02S.v and
-   proofs/MachineC03T.v, proofs/MachineC03L.v, proofs/MachineC03P.v.
+   proofs/MachineC03T.v, proofs/MachineC03L.v, proofs/MachineC03P.v, proofs/MachineC03N.v, proofs/MachineC03A.v.
    Proved: (1) the dependencies derived from a yielded structure are exactly its futures, in reverse
    written order for list/tuple structures (with the LIFO task stack: tasks first scheduled together
    start in the order written); (2) on the machine, for tree programs, the scheduler resumes a task
@@ -79,19 +79,25 @@
    reduction is C03_termination_reduced_tree).  C03_termination_demo_with_items: for c01_demo (batch items of two
    kinds, needs flushes) the guard hypothesis and the bound (10 futures) are proved for every fuel and the
    theorem instantiates.
-   NOT proved (correspondence, monitors and the watchdog only): UNCONDITIONAL termination of tree programs with
-   batch items.  Of the earlier list, (i) flush progress, (ii) termination of the later passes and (iv) the
-   syntactic no-flush criterion are now proved (7b, 8a, 7c).  Still missing is (iii) only: that the run of a tree
-   program creates boundedly many futures - equivalently a bound on the number of passes.  The intended proof: a
-   function nf : prog -> nat defined by structural recursion along Seq.eval (nf (Yield s k) = futures of the
-   leaves of s + nf (k (unwrap leaf_out s)), which is a natural number because the outcomes fed to the
-   continuations are the specified ones), and the invariant "top_next + sum over the uncomputed tasks of nf of
-   their remaining program (continuation applied to the specified outcome of what they yielded; for the running
-   task the program in MRun) <= 1 + nf p": only Yield changes it (the created futures move from the sum to
-   top_next).  This needs a sum over the heap maintained through every transition and through the nested
-   recursion of inst, which was not done.  Also not proved: never-started for never-awaited tasks,
-   no-step-after-done for programs outside stree (stored handles, value() on existing futures) without the
-   guard hypothesis, and after a computation that was cut off by the fuel or by the runaway guard. *)
+   (9) LIVENESS, last part (proofs/MachineC03N.v, proofs/MachineC03A.v; same setting): THE ALLOCATION BOUND AND
+   TERMINATION.  nf p = number of futures the sequential evaluation of p creates, by structural recursion along
+   Seq.eval (C03_nf_yield).  The machine creates no more: while the run has not unwound, top_next <= 1 + nf p
+   (C03_allocation_bound_tree).  Invariant (with the ghost spec of C01): top_next + the sum over the ids below
+   top_next of the remaining allocation of each uncomputed task (nf of the program in MRun for the running
+   task; nf of the generator applied to the specified outcome of the yielded structure for a suspended one) <=
+   1 + nf p.  Transitions outside a Yield create nothing and keep generator and yielded structure of every
+   uncomputed task (relation gq, proved for every helper of Machine.v); MResume uses look_agree; Yield moves the
+   futures of the yield expression from the sum to top_next (inst_W, by induction over the yielded structure).
+   Hence TERMINATION OF EVERY TREE PROGRAM: if the runaway guard never fires there is a fuel at which the run is
+   done with the sequential outcome (C03_terminates_tree), and if MAX_TASK_STACK_SIZE >= 1 + nf p the guard never
+   fires (C03_small_never_unwinds, with MachineNoUnwind.tree_guard_silent_while_few_futures) and termination holds
+   with NO hypothesis about the run (C03_terminates_tree_small).  C03_nf_demos: the demo runs created exactly
+   1 + nf p futures.  All four items (i)-(iv) of the earlier "missing" list are proved (7b, 8a, 9, 7c).
+   NOT proved (correspondence, monitors and the watchdog only): termination outside the tree fragment (stored
+   handles, synchronous value() calls, Let: stree and beyond), and termination when the guard does fire;
+   never-started for never-awaited tasks; no-step-after-done for programs outside stree (stored handles,
+   value() on existing futures) without the guard hypothesis, and after a computation that was cut off by the
+   fuel or by the runaway guard. *)
 From Asynq Require Import Machine Seq proofs.ProgProofs proofs.MachineC08 proofs.MachineC01 proofs.MachineC02
   proofs.MachineSteps.
 
@@ -534,3 +540,59 @@ Theorem C03_termination_demo_with_items :
   exists n, c_mode (run P n (start h s1)) = MDone (eval c01_demo).
 Proof. exact c01_demo_terminates. Qed.
 Print Assumptions C03_termination_demo_with_items.
+
+(* ==== the allocation bound and UNCONDITIONAL termination (proofs/MachineC03N.v, proofs/MachineC03A.v) ==== *)
+From Asynq Require Import proofs.MachineC03N proofs.MachineC03A.
+
+(* nf p: the number of futures the sequential evaluation of p creates (along Seq.eval) *)
+Theorem C03_nf_yield : forall s k, nf (Yield s k) = (list_sum (map nfl (leaves s)) + nf (k (unwrap leaf_out s)))%nat.
+Proof. exact nf_yield. Qed.
+Print Assumptions C03_nf_yield.
+
+(* the machine creates no more futures than the sequential evaluation: while the run has not unwound, the id
+   counter is at most 1 + nf p (the awaited task + the futures of the sequential evaluation).  Invariant: the
+   id counter + the sum over the ids of the remaining allocation of each uncomputed task (nf of the program in
+   MRun for the running task, nf of the generator applied to the specified outcome of the yielded structure
+   for a suspended one) <= 1 + nf p; only Yield changes it (proofs/MachineC03A.v: gq, inst_W, j_step). *)
+Theorem C03_allocation_bound_tree : forall P p n,
+  pointwise P -> tree p ->
+  let h := fst (create [] (FTask p) (st0 P)) in
+  let s1 := snd (create [] (FTask p) (st0 P)) in
+  (forall k, (k < n)%nat -> is_unwind (c_mode (run P k (start h s1))) = false) ->
+  (top_next (c_st (run P n (start h s1))) <= Z.of_nat (1 + nf p))%Z.
+Proof. exact alloc_bound_tree. Qed.
+Print Assumptions C03_allocation_bound_tree.
+
+(* TERMINATION of tree programs: the only hypothesis about the run is that the runaway guard never fires *)
+Theorem C03_terminates_tree : forall P p,
+  pointwise P -> tree p ->
+  let h := fst (create [] (FTask p) (st0 P)) in
+  let s1 := snd (create [] (FTask p) (st0 P)) in
+  (forall n, no_unwind P n (start h s1)) ->
+  exists n, c_mode (run P n (start h s1)) = MDone (eval p).
+Proof. exact terminates_tree. Qed.
+Print Assumptions C03_terminates_tree.
+
+(* with MAX_TASK_STACK_SIZE at least 1 + nf p the guard never fires ... *)
+Theorem C03_small_never_unwinds : forall P p,
+  pointwise P -> tree p -> (Z.of_nat (1 + nf p) <= p_maxstack P)%Z ->
+  forall n, no_unwind P n (start (fst (create [] (FTask p) (st0 P))) (snd (create [] (FTask p) (st0 P)))).
+Proof. exact small_never_unwinds. Qed.
+Print Assumptions C03_small_never_unwinds.
+
+(* ... and TERMINATION holds with NO hypothesis about the run at all *)
+Theorem C03_terminates_tree_small : forall P p,
+  pointwise P -> tree p -> (Z.of_nat (1 + nf p) <= p_maxstack P)%Z ->
+  exists n, c_mode (run P n (start (fst (create [] (FTask p) (st0 P))) (snd (create [] (FTask p) (st0 P))))) = MDone (eval p).
+Proof. exact terminates_tree_small. Qed.
+Print Assumptions C03_terminates_tree_small.
+
+(* sanity: the demo programs' finished runs created exactly 1 + nf p futures *)
+Theorem C03_nf_demos :
+  let P := mkP [] 1000 false [] in
+  (nf c01_demo = 4%nat /\ nf c03l_demo = 5%nat /\ nf c03t_demo = 4%nat) /\
+  (top_next (c_st (run P 41 (start (fst (create [] (FTask c01_demo) (st0 P))) (snd (create [] (FTask c01_demo) (st0 P)))))) = Z.of_nat (1 + nf c01_demo)) /\
+  (top_next (c_st (run P 80 (start (fst (create [] (FTask c03l_demo) (st0 P))) (snd (create [] (FTask c03l_demo) (st0 P)))))) = Z.of_nat (1 + nf c03l_demo)) /\
+  (top_next (c_st (run P 36 (start (fst (create [] (FTask c03t_demo) (st0 P))) (snd (create [] (FTask c03t_demo) (st0 P)))))) = Z.of_nat (1 + nf c03t_demo)).
+Proof. exact nf_demos. Qed.
+Print Assumptions C03_nf_demos.
